@@ -27,7 +27,7 @@ for n in names:
     tmp = tempfile.mkdtemp(prefix="verif-st-", dir=scratch_root)
     try:
         repo = tmp + "/repo"
-        subprocess.run(["rsync", "-a", "--exclude", ".git", "/repo/", repo + "/"], check=True)
+        subprocess.run(["rsync", "-a", "--exclude", ".git", os.environ.get("VP_RUN_REPO", "/repo") + "/", repo + "/"], check=True)
         r = subprocess.run(["patch", "-p1", "-s", "-i", d + "/patch.diff"], cwd=repo, stdout=subprocess.PIPE, stderr=subprocess.STDOUT, text=True)
         if r.returncode != 0:
             print(f"SELFTEST-FAILED {n}: patch does not apply\n{r.stdout}")
